@@ -79,6 +79,8 @@ func Lookalikes(level int) []*tv.Package {
 	add("log/last-statement", "func FN(p *Pt) {\n\tp.X = 1\n\tlog.Println(\"done\")\n}")
 	add("log/before-return-in-then", "func FN(x uint64) uint64 {\n\tif x > 1 {\n\t\tlog.Println(\"big\")\n\t\treturn 1\n\t}\n\treturn 2\n}")
 	add("log/two-in-a-row", "func FN(x uint64) uint64 {\n\tlog.Println(\"a\")\n\tlog.Println(\"b\")\n\treturn x\n}")
+	add("generic/two-param-struct-method", "type FNpair[K any, V any] struct {\n\tk K\n\tv V\n}\n\nfunc (p *FNpair[K, V]) FNkey() K {\n\treturn p.k\n}\n\nfunc FN(x uint64) uint64 {\n\tp := &FNpair[uint64, bool]{k: x, v: true}\n\treturn p.FNkey()\n}")
+	add("generic/two-param-func", "func FNsnd[A any, B any](a A, b B) B {\n\treturn b\n}\n\nfunc FN(x uint64) uint64 {\n\treturn FNsnd[bool, uint64](true, x)\n}")
 	add("ctl/else-if-chain-of-returns-no-final-else", "func FN(on bool, a uint64, b uint64) uint64 {\n\tif on {\n\t\tif a > 10 {\n\t\t\treturn 1\n\t\t} else if b > 10 {\n\t\t\treturn 2\n\t\t}\n\t}\n\treturn a + b\n}")
 	add("ctl/else-if-chain-break-continue-in-loop", "func FN(xs []uint64, lim uint64) uint64 {\n\tvar hits uint64 = 0\n\tfor i := uint64(0); i < uint64(len(xs)); i++ {\n\t\tif xs[i] > 0 {\n\t\t\tif xs[i] > lim {\n\t\t\t\tbreak\n\t\t\t} else if xs[i] == lim {\n\t\t\t\tcontinue\n\t\t\t}\n\t\t}\n\t\thits = hits + 1\n\t}\n\treturn hits\n}")
 	add("ctl/else-returns-then-shadows", "func FN(amount uint64, express bool) uint64 {\n\tfee := amount / 10\n\tvar total uint64 = amount\n\tif express {\n\t\tfee := amount / 2\n\t\ttotal = total + fee\n\t} else {\n\t\treturn total\n\t}\n\treturn total + fee\n}")
